@@ -74,13 +74,16 @@ def normalise_targets(text, slot_off):
             continue
         base = p
         break
-    if base.startswith('j') or base.startswith('loop') or base in ('call', 'jecxz', 'jcxz', 'xbegin'):
+    if base.startswith('j') or base.startswith('loop') or base.startswith('call') or base in ('xbegin',):
         if '*' in text or '[' in text or '%' in text.split()[-1] and '(' in text:
             return text
         m = re.search(r'(0x)?([0-9a-f]+)$', text)
         last = text.split()[-1]
         if m and re.fullmatch(r'(0x)?[0-9a-f]+', last) and ':' not in last:
             tgt = int(m.group(2), 16)
+            if base.endswith('w') and base not in ('jcxz',) or 'data16' in parts:
+                # 16-bit operand size: the target is truncated to 16 bits
+                return text[:m.start()] + 'T16%+d' % ((tgt - slot_off) & 0xffff)
             return text[:m.start()] + 'T%+d' % (tgt - slot_off)
     return text
 
